@@ -63,8 +63,7 @@ def next (s : Subj) (v : Val) : Subj × List Notif :=
   | some os => (s, deliver v os)
   | none => (s, [])
 
-/-- Terminal deliveries: entries with `p_is_closed()` are filtered out (the
-    probe's `is_finished` is constantly false, so closed = slot taken). -/
+/-- Terminal deliveries: every entry is called; a taken slot is silent. -/
 def deliverTerm (t : Notif) : List Slot → List Notif
   | [] => []
   | sl :: r => (if sl.alive then [t] else []) ++ deliverTerm t r
@@ -229,14 +228,29 @@ def World.step (key : Val → Val) (ord : List (Val × Subj) → List (Val × Su
     match w.slot with
     | none => ({ w with srcDone := true }, [])
     | some st =>
-      -- the source subject filters `!p_is_closed()` = `!is_finished()` here
-      if chainFinished w.outer then ({ w with srcDone := true }, [])
-      else
-        let (_, o) := st.onTerm ord t
-        let (ch, o') := pushOuter w.outer o
-        ({ w with srcDone := true, slot := none, outer := ch }, o')
+      -- the source subject hands its terminal to every entry, whether the outer chain
+      -- (`take n`) has finished or not; the slot is taken
+      let (_, o) := st.onTerm ord t
+      let (ch, o') := pushOuter w.outer o
+      ({ w with srcDone := true, slot := none, outer := ch }, o')
   | .unsub => ({ w with slot := none }, [])
   | .gunsub k => ({ w with slot := w.slot.map (·.unsubGroup k) }, [])
+
+/-- The terminal step of the code BEFORE `fix: Subject::error/complete hand the terminal to every
+    subscriber`: the source subject skipped an entry with `p_is_closed()` — here: the outer chain's
+    `is_finished()` — so the groups announced before `take n` completed never heard the terminal.
+    Not part of `step`; kept for the record of the defect (Props/C20.lean, last section). -/
+def World.termBefore (ord : List (Val × Subj) → List (Val × Subj)) (w : World) (t : Notif) :
+    World × List Out :=
+  if w.srcDone then (w, []) else
+  match w.slot with
+  | none => ({ w with srcDone := true }, [])
+  | some st =>
+    if chainFinished w.outer then ({ w with srcDone := true }, [])
+    else
+      let (_, o) := st.onTerm ord t
+      let (ch, o') := pushOuter w.outer o
+      ({ w with srcDone := true, slot := none, outer := ch }, o')
 
 end GroupBy
 end Rx
